@@ -4,7 +4,7 @@ From Coq Require Import ZArith Lia.
 From HV Require Import Base.Dec.
 Local Open Scope Z_scope.
 
-Ltac Zify.zify_post_hook ::= Z.to_euclidean_division_equations.
+Local Ltac Zify.zify_post_hook ::= Z.to_euclidean_division_equations.
 
 Ltac unf := unfold prec, half in *.
 
@@ -223,19 +223,25 @@ Proof. intros Hb. nia. Qed.
 
 (** Quo is within (1/2 + 10^-18) units of 10^-18 of the exact quotient:
       2 * |dquo a b * b - a * 10^18| * 10^18 <= |b| * (10^18 + 2) *)
+Lemma dquo_arith D X W Y P : D <= X * Y + W -> 2 * (X * Y) <= P * Y -> W < Y -> 2 * D <= Y * (P + 2).
+Proof. intros. lia. Qed.
+
 Theorem dquo_error a b : b <> 0 ->
   2 * Z.abs (dquo a b * b - a * prec) * prec <= Z.abs b * (prec + 2).
 Proof.
   intros Hb. unfold dquo.
   set (n := a * prec * prec). set (q := Z.quot n b).
   pose proof (chop_error q) as Hc. pose proof (quot_error n b Hb) as Hq. fold q in Hq.
+  pose proof prec_pos as Hp.
   assert (E : (chop q * b - a * prec) * prec = (chop q * prec - q) * b + (q * b - n)) by (unfold n; ring).
   assert (H1 : Z.abs (chop q * b - a * prec) * prec = Z.abs ((chop q * prec - q) * b + (q * b - n))).
-  { rewrite <- E, Z.abs_mul. rewrite (Z.abs_eq prec) by (unf; lia). reflexivity. }
+  { rewrite <- E, Z.abs_mul. rewrite (Z.abs_eq prec) by lia. reflexivity. }
   pose proof (Z.abs_triangle ((chop q * prec - q) * b) (q * b - n)) as Ht.
   rewrite Z.abs_mul in Ht.
-  assert (2 * (Z.abs (chop q * prec - q) * Z.abs b) <= prec * Z.abs b) by nia.
-  nia.
+  assert (H2 : 2 * (Z.abs (chop q * prec - q) * Z.abs b) <= prec * Z.abs b).
+  { rewrite Z.mul_assoc. apply Z.mul_le_mono_nonneg_r; [apply Z.abs_nonneg|exact Hc]. }
+  rewrite <- Z.mul_assoc, H1.
+  exact (dquo_arith _ _ _ _ _ Ht H2 Hq).
 Qed.
 
 (** exact when the divisor divides: (q * b) / b *)
